@@ -767,6 +767,41 @@ func genElemCase(t *rapid.T) ElemCase {
 	return ElemCase{set, gen.Value(et, gen.ValOpts{Null: true, RootKnown: true, MaxElems: 4}).Draw(t, "elem"), "same-type"}
 }
 
+// viaValueSet builds the set value of spec sv through a ValueSet builder and
+// SetValFromValueSet, then edits the builder: removes every member and adds
+// probe (when it has the element type). ok is false when the route does not
+// apply (marked, unknown or null members and sets: the builder takes unmarked
+// values; null / unknown sets have no members).
+func viaValueSet(sv spec.V, probe cty.Value) (v cty.Value, ok bool) {
+	if sv.St != spec.Known || sv.T.K != spec.KSet || sv.HasMarks() {
+		return cty.NilVal, false
+	}
+	defer func() {
+		if r := recover(); r != nil {
+			v, ok = cty.NilVal, false
+		}
+	}()
+	ety := sv.T.E.Cty()
+	b := cty.NewValueSet(ety)
+	var ms []cty.Value
+	for _, m := range sv.Elems {
+		mv := spec.MustBuild(m)
+		if !mv.Type().Equals(ety) {
+			return cty.NilVal, false
+		}
+		ms = append(ms, mv)
+		b.Add(mv)
+	}
+	v = cty.SetValFromValueSet(b)
+	for _, mv := range ms {
+		b.Remove(mv)
+	}
+	if probe.Type().Equals(ety) && !probe.ContainsMarked() {
+		b.Add(probe)
+	}
+	return v, true
+}
+
 func checkElem(c *facet.Ctx, in ElemCase) error {
 	set, err := spec.Build(in.Set)
 	if err != nil {
@@ -793,6 +828,15 @@ func checkElem(c *facet.Ctx, in ElemCase) error {
 		c.NonTrivial()
 	}
 	desc := fmt.Sprintf("HasElement on %s built from %d members, element %s (%s)", in.Set.T, len(in.Set.Elems), descV(in.Elem), in.Rel)
+	if alt, ok := viaValueSet(in.Set, elem); ok && len(in.Set.Elems)%2 == 1 {
+		// the same members through the other constructor (ValueSet builder +
+		// SetValFromValueSet), with the builder edited afterwards: the value
+		// holds the members it was constructed from, not what the builder
+		// holds later
+		set = alt
+		desc += " [via SetValFromValueSet, builder edited afterwards]"
+		c.Label("route=valueset-builder")
+	}
 	out := call(func() cty.Value { return set.HasElement(elem) })
 	if out.rejected {
 		return facet.Failf("haselement-rejected", "%s was rejected: %s", desc, out.why)
